@@ -11,7 +11,8 @@ DECIDED = ("R3.1 who-may-write: every raw-memory write in the crate (raw copy/wr
            "source); R3.3 in every variant of every install root and of the guard destructor each code write targets the faked function's "
            "entry, the mapping allocated by the same installation, or the guard's saved address; R3.4 entry writes are at most 16 bytes; "
            "R3.6 exactly one mapping per installation (none on 32-bit ARM); R3.7 the release primitive is called only on the allocator's reject edge "
-           "and in the guard's destructor, each time with the very mapping the injector obtained")
+           "and in the guard's destructor, each time with the very mapping the injector obtained; R3.8 the guard stored by an installation "
+           "restores at the address, and as many bytes as, the installation wrote (removal touches the designated entry only)")
 NOT_DECIDED = "effects inside the OS calls; identical-code folding by the linker (two functions sharing one address)"
 
 FFI_ALLOWED = {
@@ -141,6 +142,9 @@ def run(ck, models, tier):
         ck.floor("R3.1", "raw-copy-sites", n_raw, 2, tm.target)
         # ---------------- R3.7 nothing but the injector's own mappings is ever unmapped
         release_rules(ck, tm, g, "R3.7")
+        # ---------------- R3.8 removal touches the designated entry only: the guard restores where (and as much as) the install wrote
+        if g.adt and g.addr:
+            restore_lands_on_entry(ck, tm, g, "R3.8", patches.roots_and_roles(tm))
         if g.drop_fn and tm.arch != "arm":
             for v in tm.variants(g.drop_fn):
                 for f in [e for e in v.trace if e.kind == "ffi" and e.name in FREE_FFI]:
